@@ -176,6 +176,7 @@ CONFIG = {
     "assumptions": [
         "the digest function is a parameter H : algorithm -> bytes -> encoded digest of every theorem, with NO assumption (no collision freedom is used); the correspondence supplies the SHA-2 values (crypto/sha256, crypto/sha512 of the Go standard library) to the extracted model as a table",
         "go-digest v1.0.0 Digest.Validate / Verifier (pinned dependency) hand-modelled: sha256/sha384/sha512 registered, lower-case hex of the exact length; Verified() = (digest == alg:hex(hash))",
+        "descriptor sizes above 2^30 are outside the CORRESPONDENCE (the extracted model counts in Peano numbers) but inside theorems and oracle: Size 1<<62 / MaxInt64 are generated for ReadAll and the memory / limited / OCI / file stores under recover() (oracle: an error, no panic); they are not generated for the caching proxy, whose push goroutine cannot be guarded by the harness",
         "io.LimitedReader, io.TeeReader, io.ReadFull (io.ReadAtLeast) and io.CopyBuffer of the Go standard library hand-modelled statement by statement; the destination writer never fails (disk-full / write errors are not modelled)",
         "os.File.ReadFrom falls back to io.Copy with a 32 KiB buffer for a *VerifyReader source (go1.26.8, linux); the theorems hold for every buffer size",
         "file system: os.CreateTemp names are unique, os.Rename is atomic and replaces the target (process runs as root, so a read-only target is replaced rather than refused); blobs/<alg>/<encoded> is injective in the digest string",
